@@ -131,7 +131,7 @@ def main():
         t = t[:d] + t[e:]
         c = t.index("### 9.3 ") if "### 9.3 " in t else t.index("## Appendix A.")
     e = t.index("## Appendix A.")
-    t = t[:e] + "### 9.4 Defects repaired in /repo and findings carried (regenerated from known_findings.txt)\n\nEvery `fixed` row is one unguarded `fix:` commit in /repo (30 so far; the 247 baseline tests pass with all of them), its failing input is in `corpus/`, its reverse diff under `docs/mutations/` makes the property's check fail again. Every `finding` row is a genuine defect that is not repaired (dependency code, or no small safe patch): the check prints one `KNOWN-FINDING:` line for it and still fails on any other violation.\n\n" + sec94() + "\n\n" + t[e:]
+    t = t[:e] + "### 9.4 Defects repaired in /repo and findings carried (regenerated from known_findings.txt)\n\nEvery `fixed` row is one unguarded `fix:` commit in /repo (%d so far; the 247 baseline tests pass with all of them), its failing input is in `corpus/`, its reverse diff under `docs/mutations/` makes the property's check fail again. Every `finding` row is a genuine defect that is not repaired (dependency code, or no small safe patch): the check prints one `KNOWN-FINDING:` line for it and still fails on any other violation.\n\n" % sum(len(v) for v in findings()[1].values()) + sec94() + "\n\n" + t[e:]
     t = (t[:a] + "### 9.1 Status per property\n\n(regenerated by `tools/mkstatus.py` from evidence/, Props/, known_findings.txt; MANIFEST.json is the authoritative list of claims)\n\n" + totals() + "\n\n"
          + sec91() + "\n\n" + "### 9.2 Seeded changes and which checks catch them\n\n(regenerated by `tools/mkstatus.py` from seeded/*/meta.json and seeded/RESULTS.json, which `tools/seeded.py` writes: each patch is applied to the tree, the property's quick check is run, the patch is undone)\n\n"
          + sec92() + "\n\n" + t[c:])
